@@ -118,6 +118,16 @@ func runC12(c *ctx) {
 	for _, p := range c12Ctx {
 		c.diffEval(p, doc, "context")
 	}
+	// a closure (lambda or partial application) made before a nested block that is the LAST expression of its parent and
+	// rebinds a name the closure reads: the closure keeps seeing the parent's binding
+	for _, clos := range []string{"$f := function(){$x}", "$f := function($y){$x + $y}", "$f := $sum(?)", "$g := function($a, $b){$a + $b}; $f := $g(?, $x)", "$f := function(){function(){$x}}()"} {
+		for _, call := range []string{"$f()", "$f(1)", "[$f(1), $x]", "$map([1], $f)", "($f(1))", "(true ? $f(1) : 0)"} {
+			for _, shape := range []string{"($x := 1; %s; ($x := 2; %s))", "($x := 1; %s; (($x := 2; %s)))", "($x := 1; %s; ($x := 2; ($x := 3; %s)))", "($x := 1; %s; 0; ($x := 2; %s))",
+				"function($x){(%s; ($x := 2; %s))}(1)", "($x := 1; %s; ($y := 2; $x := $y; %s))", "($x := 1; (%s; ($x := 2; %s)))", "($x := 1; %s; ($x := 2; %s); $x)"} {
+				c.diffEval(fmt.Sprintf(shape, clos, call), doc, "scoping/closure-before-trailing-block")
+			}
+		}
+	}
 	// assignments that are not direct statements of a block (inside a conditional, a constructor, an argument):
 	// they bind in the scope of the block that contains them, never in an enclosing one
 	c.rep.Exhaustive = append(c.rep.Exhaustive, "assignment in expression position x enclosing block shape x observer")
